@@ -2938,6 +2938,17 @@ class SEVM:
 
         if follow_true:
             if target not in ex.pgm.valid_jumpdests():
+                # only the taken side fails: the fall-through side, if feasible, is still explored
+                if follow_false:
+                    new_ex_false = self.create_branch(ex, cond_false, ex.pc)
+                    new_ex_false.advance()
+                    if is_symbolic_cond:
+                        new_ex_false.jumpis[jid] = {
+                            True: visited[True],
+                            False: visited[False] + 1,
+                        }
+                    stack.push(new_ex_false)
+                ex.path.append(cond_true, branching=True)
                 raise InvalidJumpDestError(f"Invalid jump destination: 0x{target:X}")
 
             if follow_false:
